@@ -261,7 +261,8 @@ class _Restore:
         return None
     def __exit__(self, exc_type, exc, tb):
         for k in self.saved:
-            self.store[k] = self.saved[k]
+            out = self.saved[k]
+            self.store[k] = out
         LOG.append("exit")
         return False
 
